@@ -170,7 +170,7 @@ func (x *c18Mat) check(ops []c18Op, upto int, probe string, wantOff eventbus.Off
 //verif:entry property=C18 tier=both bounds="M messages (M_quick=2,M_thorough=3), each insert/update/delete/reset/snapshot-start/snapshot-end/change for an unregistered type over 2 entity types with arbitrary (SMT string) keys and symbolic values; strict or not; split into two replay sessions at any point; state compared through a universally quantified probe key" cover="one-session,two-sessions,strict-stop" M_quick=2 M_thorough=3
 func harnessC18Fold() { c18Fold(vParam("M", 3), false) }
 
-//verif:entry property=C18 tier=both bounds="longer logs over a smaller alphabet: M messages (M_quick=3,M_thorough=4), each insert/update/delete of one of two fixed keys (one contains the separator) of one entity type with a symbolic value (optionally all carrying header timestamps that decrease along the log, optionally all published inside an application envelope type with its own event type name), or reset; non-strict; split into two replay sessions at any point; same fold oracle" cover="one-session,two-sessions" M_quick=3 M_thorough=4
+//verif:entry property=C18 tier=both bounds="longer logs over a smaller alphabet: M messages (M_quick=3,M_thorough=4), each insert/update/delete of one of two fixed keys (one contains the separator) of one entity type with a symbolic value (optionally all carrying header timestamps that decrease along the log, optionally all published inside an application envelope type with its own event type name), or a control message (per log: reset, snapshot-start or snapshot-end); non-strict; split into two replay sessions at any point; same fold oracle" cover="one-session,two-sessions" M_quick=3 M_thorough=4
 func harnessC18FoldFocused() { c18Fold(vParam("M", 3), true) }
 
 func c18Fold(M int, focused bool) {
@@ -179,11 +179,18 @@ func c18Fold(M int, focused bool) {
 	ops := make([]c18Op, M)
 	// log-level variations of the focused entry: every change message carries a header timestamp and these
 	// decrease along the log; every change message travels inside an application envelope type
-	tsDown := focused && vBool()
-	wrapAll := focused && vBool()
+	ctl := 3 // what the control message of the focused alphabet is in this log: reset, snapshot-start or snapshot-end
+	if focused {
+		ctl = 3 + vPick(3)
+	}
+	tsDown := focused && ctl == 3 && vBool()
+	wrapAll := focused && ctl == 3 && vBool()
 	for i := range ops {
 		if focused {
 			o := c18Op{kind: vInt(0, 3)}
+			if o.kind == 3 {
+				o.kind = ctl
+			}
 			if o.kind <= 2 {
 				o.key = []string{"k1", "a/b"}[vPick(2)]
 				o.val = vInt(-9, 9)
